@@ -6,9 +6,11 @@ mod gen;
 mod graph;
 mod interp;
 mod machine;
+mod meta;
 mod oracle;
 mod rng;
 mod sup;
+mod trace;
 
 use std::env;
 
@@ -55,6 +57,12 @@ fn main() {
                 usage();
             }
             std::process::exit(sup::replay(&args[2]));
+        }
+        "sig" => {
+            if args.len() < 3 {
+                usage();
+            }
+            std::process::exit(meta::sig_main(&args[2]));
         }
         "replay-inner" => {
             if args.len() < 3 {
